@@ -231,6 +231,20 @@ SPECS["C01"] += [
 ]
 
 
+# ---- C11: how a delay is split into whole samples and a remainder: the kernel that places each response (whole part) and the
+#      elementwise formula of its caller (remainder, handed to the spectral time shift)
+SPECS["C11"] = [
+    FuncSpec(MODEL, "_timeshift_timedomain", "timeshift_window",
+             [("delays", A(K, 1)), ("dt", K), ("t0_idx", I), ("n", N), ("idx", N)],
+             skip=["n = unshifted_response.shape[1]"], objects={"unshifted_response"},
+             cell={"loops": ["idx"], "arrays": {"out": (("T", (I, I)), ("idx",))}, "slice_add": {"out": ("unshifted_response", "idx")}},
+             doc="`n` is `unshifted_response.shape[1]`; the cell is the window `[a, b)` of row `idx` of `out` onto which row `idx` of the response is added"),
+    FuncSpec(MODEL, "transfer_func_to_timetraces", "delay_remainder", [("delays", K), ("dt", K)], only=("delays_remainder",),
+             objects={"unshifted_transfer_func", "timetraces_time", "toneburst_time", "toneburst_freq", "toneburst_f", "toneburst_t0_idx", "timetraces"},
+             doc="elementwise; `delays` is the delay counted from the start of the output time axis (after `delays = delays - timetraces_time.start`)"),
+]
+IMPORTS["C11"] = ["ArimModel.Src"]
+
 # ---- C14: the cache decorator and the cached query methods of RayGeometry, read structurally (py2lean_cache.py)
 import py2lean_cache
 CUSTOM = {"C14": py2lean_cache.translate}
